@@ -319,10 +319,10 @@ type c18Bounds struct {
 func c18GetBounds(r *kit.Run) c18Bounds {
 	b := c18Bounds{
 		maxes:    []int{1, 2, 3},
-		inits:    []string{c18Missing, "", "a", "a\n", "a\nb\n", "a\nb\nc\nd\n", "\n", "a\n\nb\n"},
+		inits:    []string{c18Missing, "", "a", "a\n", "a\nb\n", "a\nb\nc\nd\n", "\n", "a\n\nb\n", " a\nb \n"},
 		sessions: 3, steps: 4,
 		edits:   []string{"edit:x", "edit:", "edit:="},
-		submits: []string{"abort", "accept", "accept:", "accept:a", "accept:b", "accept:a b"},
+		submits: []string{"abort", "accept", "accept:", "accept:a", "accept:b", "accept:a b", "accept:a ", "accept: b"},
 	}
 	if r.Thorough() {
 		b.maxes = []int{1, 2, 3, 4}
